@@ -9,7 +9,7 @@ import tempfile
 import time
 
 RLIMIT = int(os.environ.get("PYVC_RLIMIT", "60000000"))
-WALL_S = int(os.environ.get("PYVC_WALL_S", "40"))
+WALL_S = int(os.environ.get("PYVC_WALL_S", "90"))
 
 
 def _solve(job):
